@@ -142,6 +142,9 @@ def wf_image(img, cap):
 
 def monitor(opline, impl, spec, cap):
     kind = opline.split()[0]
+    for w in ('CRASH', 'TIMEOUT'):
+        if impl.endswith(w):
+            impl = w
     if impl in ('CRASH', 'TIMEOUT'):
         return {'op': kind, 'observed': impl.lower()}
     if impl in ('DEAD', 'MISSING') or ' | ' not in impl:
